@@ -223,6 +223,18 @@ class Gen:
             name = self.fresh("a", scope)
             size = r.below(3) + 1
             self.hit("array-decl")
+            if r.chance(1, 3):
+                # an inline array with three or four elements as initialiser (the degree and value of the array come from all of them)
+                size = r.below(2) + 3
+                self.hit("array-inline")
+                out = ["var", name, "[", str(size), "]", "=", "["]
+                for k in range(size):
+                    if k:
+                        out.append(",")
+                    out += self.expr(scope, 1, self.kind == "template")
+                out += ["]", ";"]
+                scope.arrays.append((name, size))
+                return out
             out = ["var", name, "[", str(size), "]", ";"]
             if r.chance(5, 6):
                 out += [name, "[", str(r.below(size)), "]", "="] + self.expr(scope, 1, False) + [";"]
